@@ -82,12 +82,15 @@ def run(tier, seed, build=True):
     try:
         seqs = sequences(tier)
         tzs = [(-660, "-11:00"), (0, "+00:00"), (780, "+13:00")]
-        conts = ["plain", "gz"] + (["tar", "bz2"] if tier == "thorough" else [])
+        conts = ["plain", "gz"] + (["tar", "bz2"] if tier == "thorough" else ["bz2"])
         bszs = [64, 65536] if tier == "quick" else [64, 128, 65536]
         common.log("[C11] %d year-less logs (%d with >=1 year wrap, %d with >=2)" % (len(seqs), sum(1 for s in seqs if wraps(s) >= 1), sum(1 for s in seqs if wraps(s) >= 2)))
         items = []
         for si, seq in enumerate(seqs):
             data = b"\n".join(syslog_line(t, i) for i, t in enumerate(seq)) + b"\n"
+            # every 5th log starts with a line that carries no stamp (a header, the tail of a rotated line): it belongs to
+            # no message and is not printed; the messages are dated as without it
+            header = b"# log opened by logrotate\n" if si % 5 == 2 else b""
             last = seq[-1]
             ylast = gen.civil(last)[0]
             mt_local = [last, last + 1]
@@ -104,10 +107,10 @@ def run(tier, seed, build=True):
                 mtime_utc = mtl - tzm * 60          # the modification instant whose local year is ylast
                 true_utc = [t - tzm * 60 for t in seq]
                 for cont in conts:
-                    if tier == "thorough" and cont in ("tar", "bz2") and (si % 4):
+                    if cont in ("tar", "bz2") and (si % 4):
                         continue                  # tar / bz2: every 4th log
                     d = os.path.join(work, "i%d" % len(items))
-                    items.append((si, seq, data, tzm, tzs_, mtime_utc, true_utc, cont, d))
+                    items.append((si, seq, header + data, tzm, tzs_, mtime_utc, true_utc, cont, d))
         common.log("[C11] %d file instances" % len(items))
 
         quick = tier == "quick"
@@ -148,6 +151,8 @@ def run(tier, seed, build=True):
             for bsz in bszs:
                 if bsz != 65536 and not wraps(seq):
                     continue
+                if bsz != 65536 and (data.startswith(b"# log opened") or (quick and cont == "bz2")):
+                    continue      # a first stamped line outside block zero is C02/C12's known finding, judged there
                 for (a, b) in (wins if bsz == 65536 else wins[:1]):
                     args = ["--color", "never", "-u", "-d", DTFMT, "-t=" + tzs_, "--blocksz", str(bsz)]
                     if a is not None:
@@ -162,7 +167,7 @@ def run(tier, seed, build=True):
 
         for it, runs in common.pmap(prepare_and_run, items):
             si, seq, data, tzm, tzs_, mtime_utc, true_utc, cont, d = it
-            lines = data.split(b"\n")[:-1]
+            lines = [ln for ln in data.split(b"\n")[:-1] if not ln.startswith(b"# log opened")]
             res.distinct((tuple(seq), tzm, cont))
             for a, b, bsz, args, r in runs:
                 res.count()
